@@ -461,7 +461,7 @@ func init() {
 		Cases: func(seed uint64, tier string) []Case {
 			n := 400
 			if !quick(tier) {
-				n = 15000
+				n = 60000
 			}
 			var cs []Case
 			for i := 0; i < n; i++ {
